@@ -85,6 +85,7 @@ pub async fn solo(case: &SrvCase, c: usize, actions: &[ActRec], key_seed: u64, b
                 tokio::time::advance(std::time::Duration::from_millis(1)).await;
                 w.issue(c, tag, req);
                 pump().await;
+                w.settle_request(c).await;
             }
             ActKind::Gate { bg_task_ord, outcome } => {
                 let gates = w.pending_gates();
